@@ -32,8 +32,10 @@ TrN0 == Rec.n0
 Ev == Rec.ev
 Diag == "DIAG" \in DOMAIN IOEnv /\ IOEnv.DIAG = "1"
 
-VARIABLE l
-tvars == <<vars, l>>
+VARIABLES l,
+          slotOf,   \* bin-array slot (address renamed 1,2,..) -> <<table, index>> it was seen to be (<<0,0>> = not yet)
+          tntOf     \* address of a table's own next_table field -> that table (0 = not yet)
+tvars == <<vars, l, slotOf, tntOf>>
 
 \* the bin (table, index) an action of thread t reads or writes, if any
 BinOf(t) ==
@@ -49,8 +51,12 @@ BinOf(t) ==
 Class(t) ==
   LET p == pc[t]  lc == loc[t] IN
   CASE p = "idle" -> IF idx[t] <= Len(Prog[t]) THEN "call" ELSE "none"
-    [] p \in {"LoadTable", "InitLoadTable", "InitRecheck", "AcLoadTable", "HLoopTable"} -> "ld_table"
-    [] p \in {"InitLoadSc", "AcLoadSc", "HLoadSc", "XLoadScLeave"} -> "ld_sc"
+    [] p = "LoadTable" -> IF CurOp(t).op = "reserve" THEN "ld_cnt" ELSE "ld_table"
+    [] p \in {"InitLoadTable", "InitRecheck", "AcLoadTable", "HLoopTable", "PsLoadTable", "PsInitRecheck", "PsRecheck"} -> "ld_table"
+    [] p \in {"InitLoadSc", "AcLoadSc", "HLoadSc", "XLoadScLeave", "PsLoadSc"} -> "ld_sc"
+    [] p \in {"PsCasInit", "PsCasStart"} -> "cas_sc"
+    [] p \in {"PsInitRestore", "PsInitStoreSc"} -> "st_sc"
+    [] p = "PsInitSwap" -> "swap_table"
     [] p = "InitSpin" -> "spin"
     [] p \in {"InitCasSc", "AcCasJoin", "AcCasStart", "HCasJoin", "XCasLeave"} -> "cas_sc"
     [] p = "InitStoreTable" -> "st_table"
@@ -115,18 +121,34 @@ RetOk(e, t) ==
   /\ idx[t] > 1 /\ o \in DOMAIN res
   /\ Matches(op, [ok |-> e.ok, v |-> e.v, tag |-> e.tag, ni |-> e.ni, seen |-> e.seen, pl |-> e.pl], res[o], FALSE)
 
-TInit == Init /\ l = 1
+\* the same address is always the same slot of the same table, and different addresses are different slots
+SlotOk(e, t) ==
+  LET want == BinOf(t) IN
+  IF want[1] = 0 \/ "s" \notin DOMAIN e THEN UNCHANGED slotOf
+  ELSE /\ slotOf[e.s] \in {<<0, 0>>, want}
+       /\ \A s2 \in DOMAIN slotOf : s2 # e.s => slotOf[s2] # want
+       /\ slotOf' = [slotOf EXCEPT ![e.s] = want]
+TntOk(e, t) ==
+  IF pc[t] \notin {"GetFwd", "HLoadNt", "ItDescend"} \/ "s" \notin DOMAIN e THEN UNCHANGED tntOf
+  ELSE LET want == loc[t].tb IN
+       /\ tntOf[e.s] \in {0, want}
+       /\ \A s2 \in DOMAIN tntOf : s2 # e.s => tntOf[s2] # want
+       /\ tntOf' = [tntOf EXCEPT ![e.s] = want]
+
+TInit == Init /\ l = 1 /\ slotOf = [i \in 1..Rec.nslots |-> <<0, 0>>] /\ tntOf = [i \in 1..Rec.ntnts |-> 0]
 E == Ev[l]
 TNext ==
   /\ l <= Len(Ev)
   /\ LET t == E.t IN
-     \/ /\ Class(t) = "local" /\ Step(t) /\ UNCHANGED l
-     \/ /\ E.c = "ret" /\ pc[t] = "idle" /\ RetOk(E, t) /\ l' = l + 1 /\ UNCHANGED vars
+     \/ /\ Class(t) = "local" /\ Step(t) /\ UNCHANGED <<l, slotOf, tntOf>>
+     \/ /\ E.c = "ret" /\ pc[t] = "idle" /\ RetOk(E, t) /\ l' = l + 1 /\ UNCHANGED <<vars, slotOf, tntOf>>
      \* an unlock the specification folded into the action of the critical section's write
-     \/ /\ E.c = "unlock" /\ Class(t) \notin {"unlock", "local"} /\ l' = l + 1 /\ UNCHANGED vars
+     \/ /\ E.c = "unlock" /\ Class(t) \notin {"unlock", "local"} /\ l' = l + 1 /\ UNCHANGED <<vars, slotOf, tntOf>>
      \* get_moved's read of the old table's next_table field where the specification has no step
-     \/ /\ E.c = "ld_tnt" /\ Class(t) \notin {"ld_tnt", "local"} /\ l' = l + 1 /\ UNCHANGED vars
+     \/ /\ E.c = "ld_tnt" /\ Class(t) \notin {"ld_tnt", "local"} /\ l' = l + 1 /\ UNCHANGED <<vars, slotOf, tntOf>>
      \/ /\ E.c \notin {"ret"} /\ Class(t) = E.c /\ l' = l + 1 /\ Step(t) /\ Post(E, t)
+        /\ IF E.c \in {"ld_b", "cas_b", "st_b"} THEN SlotOk(E, t) ELSE UNCHANGED slotOf
+        /\ IF E.c = "ld_tnt" THEN TntOk(E, t) ELSE UNCHANGED tntOf
 TSpec == TInit /\ [][TNext]_tvars
 
 Done == l > Len(Ev)
